@@ -11,7 +11,7 @@
 
    Float wire format:  <<s, l1..l6>> as in FxReal, or <<9, c, 0,0,0,0,0>> for non-numbers:
    c = 1 NaN, 2 +inf, 3 -inf, 4 finite >= 10^8, 5 finite <= -10^8.                              *)
-EXTENDS ColourScience, MathKernels, Json, IOUtils
+EXTENDS ColourScience, MathKernels, Json, IOUtils, FiniteSets
 
 Rec == ndJsonDeserialize(IOEnv.TRACE)
 N   == Len(Rec)
@@ -95,10 +95,16 @@ VTf(e) ==
   ELSE IF e.res # "ok" THEN <<"C03.result", e.res>>
   ELSE IF Len(e.y) # Len(e.x) THEN <<"C03.shape">>
   ELSE IF e.tc = 8 THEN FirstBad("C03.linear-bits", {i \in 1..Len(e.x) : e.yb[i] # e.xb[i]})
-  ELSE FirstBad("C03.curve",
-         {i \in 1..Len(e.x) : \E k \in 1..3 :
-            /\ InUnit(e.x[i][k])
-            /\ ~(IsNum(e.y[i][k]) /\ NearAny(e.y[i][k], CurveRef(e.tc, e.dir, e.x[i][k]), IF IsFast(e.b) THEN CurveTol(e.tc, e.dir) ELSE TolExact))})
+  \* Where the standards circulate more than one set of constants for a curve (sRGB, PQ) CurveRef lists the candidates.
+  \* "The curve's defining formula" is ONE formula: some single candidate must explain every sample of the event (not a
+  \* different candidate for each sample, which would widen the budget by the distance between the candidates).
+  ELSE LET tol == IF IsFast(e.b) THEN CurveTol(e.tc, e.dir) ELSE TolExact
+           nv  == Len(CurveRef(e.tc, e.dir, One))
+           Good(i, v) == \A k \in 1..3 : InUnit(e.x[i][k]) => (IsNum(e.y[i][k]) /\ Near(e.y[i][k], CurveRef(e.tc, e.dir, e.x[i][k])[v], tol))
+       IN IF \E v \in 1..nv : \A i \in 1..Len(e.x) : Good(i, v) THEN OK
+          ELSE LET nbad(v) == Cardinality({i \in 1..Len(e.x) : ~Good(i, v)})
+                   best == CHOOSE v \in 1..nv : \A u \in 1..nv : nbad(v) <= nbad(u)
+               IN FirstBad("C03.curve", {i \in 1..Len(e.x) : ~Good(i, best)})
 
 \* C03  ev = "tfa": the aliases of one curve on a shared input: bit-identical results
 VTfa(e) == FirstBad("C03.alias-bits", {k \in 2..Len(e.yb) : e.yb[k] # e.yb[1]})
